@@ -392,15 +392,15 @@ class CheckedCoverageInstrumentation(python3_11.CheckedCoverageInstrumentation):
         return super().should_instrument_line(instr, lineno) and instr.name != "END_FOR"
 
     @staticmethod
-    def _is_unbound_allowed(cfg: cf.CFG, node: cf.BasicBlockNode, instr: Instr) -> bool:
+    def _is_unbound_allowed(cfg: cf.CFG, instr: Instr) -> bool:
         """Whether the local variable may be unbound where the instruction is traced.
 
         An inlined comprehension saves the variables it hides with LOAD_FAST_AND_CLEAR
-        and restores them (after a SWAP) with STORE_FAST, whether they are bound or not.
+        and restores them with STORE_FAST, whether they are bound or not. Such a
+        STORE_FAST cannot be told apart from one that binds the variable.
 
         Args:
             cfg: The control flow graph of the code object
-            node: The node that contains the instruction
             instr: The instruction that accesses the local variable
 
         Returns:
@@ -408,23 +408,12 @@ class CheckedCoverageInstrumentation(python3_11.CheckedCoverageInstrumentation):
         """
         if instr.name == "LOAD_FAST_AND_CLEAR":
             return True
-        if instr.name != "STORE_FAST":
-            return False
-        previous_instr = None
-        for original_instr in node.original_instructions:
-            if original_instr is instr:
-                break
-            previous_instr = original_instr
-        return (
-            previous_instr is not None
-            and previous_instr.name == "SWAP"
-            and any(
-                isinstance(other, Instr)
-                and other.name == "LOAD_FAST_AND_CLEAR"
-                and other.arg == instr.arg
-                for block in cfg.bytecode_cfg
-                for other in block
-            )
+        return instr.name == "STORE_FAST" and any(
+            isinstance(other, Instr)
+            and other.name == "LOAD_FAST_AND_CLEAR"
+            and other.arg == instr.arg
+            for block in cfg.bytecode_cfg
+            for other in block
         )
 
     def visit_local_access(  # noqa: D102, PLR0917
@@ -451,7 +440,7 @@ class CheckedCoverageInstrumentation(python3_11.CheckedCoverageInstrumentation):
                     InstrumentationConstantLoad(value=instr_original_index),
                     InstrumentationConstantLoad(value=instr.arg),  # type: ignore[arg-type]
                     InstrumentationConstantLoad(value=None)
-                    if self._is_unbound_allowed(cfg, node, instr)
+                    if self._is_unbound_allowed(cfg, instr)
                     else InstrumentationFastLoad(name=instr.arg),  # type: ignore[arg-type]
                 ),
             ),
